@@ -55,12 +55,12 @@ LOWER_GLUE = ["Module::resolve_special_instrumentation: the per-function driver 
 
 V18_TYPES = ["V18_parse_types.convert_subtype.*", "V18_parse_types.fn:Module::convert_subtype", "V18_parse_types.parse_type_section.*", "V18_parse_types.fn:Module::parse_type_section", "V18_parse_types.DataType.from_storage_type.*", "V18_parse_types.fn:DataType as From::from", "V18_parse_types.fn:RecGroup::new", "V18_parse_types.fn:lemma_*", "V18_parse_types.fn:Error as From::from"]
 V18_TRUST = "type-section arm of parse_internal (V18): wasmparser's SubType / CompositeType / FieldType / ArrayType / StructType / ContType / StorageType are taken as they are (public fields); FuncType through params() / results(); a recursion group through two uninterpreted observers (explicitness, member list) behind wrappers that stand for `ty.clone()?.is_explicit_rec_group()` and `ty?.types()`; DataType::from(ValType) is an uninterpreted dt_of (total on what the reader yields - it panics on UnpackedIndex::Id, which only the validator produces; exactness: Kani K1); derived Clone of CompositeInnerType / Types yield equal values; precondition: the type ids handed out so far are 0..n and the section fits below 2^32"
-V19_CODE = ["V19_parse_code.parse_code_entry.*", "V19_parse_code.fn:Module::parse_code_entry", "V19_parse_code.fn:lemma_*", "V19_parse_code.fn:Error as From::from"]
+V19_CODE = ["V19_parse_code.parse_code_entry.*", "V19_parse_code.fn:Module::parse_code_entry", "V19_parse_code.check_section_counts.*", "V19_parse_code.fn:Module::check_section_counts", "V19_parse_code.fn:lemma_*", "V19_parse_code.fn:Error as From::from"]
 V19_TRUST = "code-entry arm of parse_internal (V19): a function body of the reader is two sequences of items (local declarations, operators; an entry or a read error each, the sum of the declared counts fits u32 - LocalsReader::read fails with 'too many locals' otherwise); the two `collect::<Result<Vec<_>, _>>()` over the external iterators are named wrappers ASSUMED to gather all entries or hand on an error; DataType::from(ValType) as dt_of; Instruction::new gives the operator with an empty flag (derived Default); `num_locals += count` (a `&u32` operand) is read as `+= *count` (std's forwarding impl)"
 V17_SKELETON = ["V17_encode_skeleton.encode_internal.*", "V17_encode_skeleton.fn:Module::encode_internal", "V17_encode_skeleton.fn:lemma_prefix_*", "V17_encode_skeleton.fn:*::is_empty",
                 "V12_sections.encode_globals.nothing_a_section_guard_reads_changes", "V12_sections.encode_data_segments.nothing_a_section_guard_reads_changes", "V11_emit.encode_code_section.nothing_a_section_guard_reads_changes"]
 V17_TEXT = "the function as a whole (unit V17): with every region replaced by a call of its synthetic function, what is left of encode_internal is verified against the regions' contracts: the sections are handed to the module in the order the binary format prescribes, each exactly when its part of the module is there (name section always, then one custom section per stored one); the lowering pass gets the three maps of the head, each in its own position. The CONTENT contracts of the regions are not composed there (their preconditions - e.g. 'every live export designates a live item' - are not derived from the head's postcondition): what each section contains is decided per region"
-ENCODE_GLUE = "Module::encode_internal (src/ir/module/mod.rs): the call sites of fix_op_id_mapping and the per-section emission loops are not under contract, EXCEPT the head of the function (unit V2, region compute_index_mappings: each of the three index spaces is re-indexed with its own container, flag and boundary, and the map that comes out binds every live item to its new position; that these three maps are the ones handed to the later regions is read off the text: they are immutable locals) and the per-instruction loop of the code section (unit V11, a region of encode_internal): every instruction and every injected instruction goes through fix_op_id_mapping with the three maps before it is emitted"
+ENCODE_GLUE = "Module::encode_internal (src/ir/module/mod.rs): every section's emission loop is a region under contract (units V2 head, V11 function / code sections, V12 all other sections, V13 / V14 constant expressions and types as written), and the function as a whole is verified against those contracts for the ORDER and PRESENCE of the sections (V17). What is not done: the composition of the content contracts - the regions' preconditions (e.g. every live export designates a live item, every operator refers to live items) are not derived from the head's postcondition and a well-formedness invariant of the module; that the three maps handed to the regions are the head's is by construction (the regions are cut from one function text and share its local names)"
 V11_EMIT = ["V11_emit.encode_function_body.*", "V11_emit.fn:encode_function_body", "V11_emit.update_ids_and_encode.*", "V11_emit.fn:update_ids_and_encode",
             "V11_emit.fn:InstrumentationFlag::has_instr", "V11_emit.fn:InstrumentationFlag::check_special_is_resolved", "V11_emit.fn:lowered_upto"]
 V12_EXPORTS = ["V12_sections.encode_exports.*", "V12_sections.fn:Module::encode_exports", "V12_sections.fn:ModuleExports::iter"]
@@ -273,7 +273,7 @@ PROPS = {
         "obligations": ["K:k1_valtype_roundtrip*", "K:k4_*", "K:k5_spec_*"] + V6_GLOBALS + V6_MEMS + ["V6b_api2.add_data.*", "V6b_api2.fn:Module::add_data", "V6b_api2.ModuleExports.add_export_*", "V6b_api2.fn:ModuleExports::add_export_*",
                         "V3_remap.InitInstr.*", "V3_remap.fn:InitInstr::fix_id_mapping"],
         "obligations_extra": V13_CONSTEXPR + V12_MEMS + V12_GLOBALS + V12_EXPORTS + V12_DATA,
-        "glue": [V13_TRUST] + V12_TRUST + [ENCODE_GLUE, "DataType -> ValType (content type) is abstract here (valtype_of); bit-exactness of constants (InitExpr::to_wasmencoder_type) and the emission of limits / payloads are not under contract at this commit"],
+        "glue": [V13_TRUST] + V12_TRUST + [ENCODE_GLUE, "DataType -> ValType (content type) is abstract here (valtype_of); bit-exactness of numeric constants is decided by Kani K4, the other initialiser instructions by V13 against an instruction-encoder model"],
         "design_ref": "DESIGN.md §5 C30",
     },
     "C29": {
@@ -442,7 +442,7 @@ PROPS = {
     },
     "C23": {
         "title": "Side-effect report lists exactly the tagged additions and probes",
-        "units": ["V12_sections", "V7_types", "V11_emit", "V15_probes"],
+        "units": ["V12_sections", "V7_types", "V11_emit", "V15_probes", "V20_tags"],
         "obligations": ["V12_sections.encode_exports.one_record_per_live_tagged_export", "V12_sections.encode_exports.no_other_records", "V12_sections.fn:Module::encode_exports",
                         "V12_sections.encode_imports.one_record_per_live_tagged_import", "V12_sections.fn:Module::encode_imports",
                         "V12_sections.fn:Export as TagUtils::get_tag", "V12_sections.fn:Import as TagUtils::get_tag",
@@ -466,8 +466,12 @@ PROPS = {
                         "V15_probes.take_function_level_code.*", "V15_probes.fn:Module::take_function_level_code", "V15_probes.fn:Functions::get_kind_mut",
                         "V11_emit.update_ids_and_encode.stored_code_is_remapped_in_place", "V11_emit.fn:update_ids_and_encode",
                         "V11_emit.encode_function_body.stored_probe_lists_are_remapped_as_emitted", "V11_emit.fn:encode_function_body", "V11_emit.fn:lemma_body_records_after",
-                        "V11_emit.encode_code_section.probe_records_of_every_live_local_function_with_code_as_emitted", "V11_emit.encode_code_section.no_other_records", "V11_emit.fn:Module::encode_code_section"],
-        "glue": ["ASSUMED: #[derive(Hash, Eq)] of InjectType obeys the HashMap key model; #[derive(Clone)] of Injection, Tag, Types and InitExpr, String::clone, <[u8]>::to_vec and Tag::to_owned yield equal values; DataType::from(ValType) is an uninterpreted dt_of (its exactness: Kani K1); str::to_string is modelled by an uninterpreted str_owned",
+                        "V11_emit.encode_code_section.probe_records_of_every_live_local_function_with_code_as_emitted", "V11_emit.encode_code_section.no_other_records", "V11_emit.fn:Module::encode_code_section",
+                        # how a tag reaches the list it is meant for (V20)
+                        "V20_tags.append_to_tag.*", "V20_tags.fn:HasInjectTag::append_to_tag", "V20_tags.fn:TagUtils::get_or_create_tag", "V20_tags.fn:TagUtils::get_tag",
+                        "V20_tags.fn:InjectedInstrs as TagUtils::*", "V20_tags.fn:InstrumentationFlag as TagUtils::*", "V20_tags.fn:FuncInstrFlag as TagUtils::*",
+                        "V20_tags.append_instr_tag_at.*", "V20_tags.fn:LocalFunction::append_instr_tag_at"],
+        "glue": ["tags (V20): `append_to_tag` (the default method) and the get_or_create_tag / get_tag of InjectedInstrs, InstrumentationFlag and FuncInstrFlag are under contract - the bytes are appended to the tag of the list the current mode addresses, an absent tag counts as empty, nothing else changes -, as is LocalFunction::append_instr_tag_at; `Option::get_or_insert_default` is a named wrapper (ASSUMED; derived Default of Tag / InjectedInstrs = empty); the iterators' append_tag_at forwarders and the tag setters of module-level items (get_or_create_tag of Export, Import, Global, ...) are read, not proved", "ASSUMED: #[derive(Hash, Eq)] of InjectType obeys the HashMap key model; #[derive(Clone)] of Injection, Tag, Types and InitExpr, String::clone, <[u8]>::to_vec and Tag::to_owned yield equal values; DataType::from(ValType) is an uninterpreted dt_of (its exactness: Kani K1); str::to_string is modelled by an uninterpreted str_owned",
                  "the Type, Import, Export, Memory, Table, Element, Global, Data, Func and Probe records are decided (Global, Data, Func and Probe records through a view, because they hold Vecs: id / type / tag / initialiser resp. memory / offset / bytes / tag resp. function / position / mode / code / tag, with the indices inside in the index space of the encoded module). Func records are made when the function section is written, i.e. with the body as stored BEFORE the code section rewrites it (the caller's index space); Local records are never produced by the library. Probe records: a record is made for EVERY non-empty probe list, tagged or not (an untagged list gets the empty tag) - the property speaks of probes that carry a tag, for which this gives exactly one record with that tag; after- / replacement code placed on a function's final `end` is never emitted and (after fix F32) gets no record. That the function-level records are pulled exactly once per lowered function and the location records once per live local function is proved for the two regions (take_function_level_code of the lowering driver, encode_code_section); that encode_internal runs the lowering before the code section is glue",
                  "that items of the parsed module carry no tag (so get no record) is a property of parse_internal (it builds every item with tag None): read, not proved"],
         "design_ref": "DESIGN.md §5 C23",
